@@ -135,6 +135,17 @@ fn extra_cases(thorough: bool) -> Vec<(String, rosu_pp::Beatmap)> {
             }
         }
     }
+    // timelines of more than a day and of several days (the verdict of check_suspicion is part of the digest)
+    for mode in [0u8, 3] {
+        for silence in [100_000_000u32, 500_000_000] {
+            let o = |gap: u32, i: u8| vh::gen::Obj { kind: Kind::Circle, gap, pos: PosK::Far, sound: 0, col: i % 3 };
+            let mut objs: Vec<vh::gen::Obj> = (0..4).map(|i| o(if i == 0 { 0 } else { 110 }, i)).collect();
+            objs.push(o(silence, 0));
+            objs.extend((1..4).map(|i| o(110, i)));
+            let spec = MapSpec::new(mode, objs);
+            v.push((spec.describe(), spec.decode()));
+        }
+    }
     for mode in 0..4u8 {
         let alpha = if mode == 3 {
             vh::gen::Alphabet::product(&[Kind::Circle, Kind::Hold(300)], &[0, 125], &[PosK::Same], &[0], &[0, 2])
@@ -178,7 +189,7 @@ fn main() {
     }
 
     let ctx = Ctx::from_env("C10");
-    ctx.rule("case = grammar map (dense universe: N<=2/3 objects, gaps {0,150,1000}; long-gap universe: N<=3/4 objects, gaps {150, 7 s, 700 s} so that strains decay through the subnormal range to exact zero, first object before time zero; extra cases: the fixtures and windows of them, rhythm and 3-object motif universes, two bursts separated by a silence of 7*10^6 / 1.4*10^7 ms = more than 2^14 / 2^15 strain sections); per case the whole battery (difficulty, full strain vectors, gradual walks, performance, conversions to every reachable mode, 3 settings + key mods) is digested by four builds of this checker that differ only in rosu-pp's cargo features; oracle = the four digests are equal for every case; non-trivial = every case (each compares four independent executions)");
+    ctx.rule("case = grammar map (dense universe: N<=2/3 objects, gaps {0,150,1000}; long-gap universe: N<=3/4 objects, gaps {150, 7 s, 700 s} so that strains decay through the subnormal range to exact zero, first object before time zero; extra cases: the fixtures and windows of them, rhythm and 3-object motif universes, two bursts separated by a silence of 7*10^6 / 1.4*10^7 ms = more than 2^14 / 2^15 strain sections, and by 10^8 / 5*10^8 ms = more than one / five days); per case the whole battery (bpm, check_suspicion verdict, difficulty, full strain vectors, gradual walks, performance, conversions to every reachable mode, 3 settings + key mods) is digested by four builds of this checker that differ only in rosu-pp's cargo features; oracle = the four digests are equal for every case; non-trivial = every case (each compares four independent executions)");
     ctx.assume("the four binaries are built from the same working tree by bin/pre_c10 (target/feat-*/release/c10)");
 
     let root = PathBuf::from(std::env::var("VERIF_ROOT").unwrap_or_else(|_| "/verif".into()));
@@ -211,6 +222,7 @@ fn main() {
         None => (0, total),
     };
     let slice = 64u64;
+    let ext_slots = (total - grammar_total).div_ceil(slice) * slice;
     let next = AtomicU64::new(lo);
     let done = AtomicU64::new(0);
     let capped = std::sync::atomic::AtomicBool::new(false);
@@ -222,11 +234,27 @@ fn main() {
                     capped.store(true, Ordering::Relaxed);
                     break;
                 }
-                let a = next.fetch_add(slice, Ordering::Relaxed);
-                if a >= hi {
-                    break;
-                }
-                let b = (a + slice).min(hi);
+                // the hand-picked extra cases go first (they sit behind the grammar universes in the index space): a wall cap
+                // then cuts the tail of the largest grammar universe, never a whole class of inputs
+                let v = next.fetch_add(slice, Ordering::Relaxed);
+                let (a, b) = if ctx.replay.is_some() {
+                    if v >= hi {
+                        break;
+                    }
+                    (v, (v + slice).min(hi))
+                } else if v < ext_slots {
+                    let a = grammar_total + v;
+                    if a >= total {
+                        continue;
+                    }
+                    (a, (a + slice).min(total))
+                } else {
+                    let a = v - ext_slots;
+                    if a >= grammar_total {
+                        break;
+                    }
+                    (a, (a + slice).min(grammar_total))
+                };
                 // run the four variants concurrently on this slice
                 let outs: Vec<Option<Vec<(u64, u64)>>> = std::thread::scope(|s2| {
                     let hs: Vec<_> = exes
@@ -268,7 +296,7 @@ fn main() {
                 }
                 done.fetch_add(b - a, Ordering::Relaxed);
                 ctx.add_counts(b - a, 4 * (b - a), 4 * (b - a), b - a);
-                if a == lo {
+                if a == if ctx.replay.is_some() { lo } else { 0 } {
                     let mut o = J::obj();
                     o.set("universe", J::s("feature-variants"));
                     o.set("index", J::i(a));
